@@ -110,8 +110,8 @@ Qed.
 
 (* the spellings of fn_args / cases / combos / var_names / var_dims are normalised by the pinned functions of
    prepare.py (bare values wrapped, strings not split, dicts kept, duplicates refused) *)
-Theorem C02_spellings_pinned : GenRunner.gen_prepare_is_pinned = true.
-Proof. exact BridgeRunner.bridge_prepare_pinned. Qed.
+Theorem C02_spellings_pinned : GenRunner.gen_prepare_is_pinned = true /\ GenRunner.gen_placeholder_is_pinned = true.
+Proof. exact (conj BridgeRunner.bridge_prepare_pinned BridgeRunner.bridge_placeholder_pinned). Qed.
 
 Print Assumptions C02_spellings_pinned.
 Print Assumptions C02_code_tie.
